@@ -36,8 +36,14 @@ PROPS = {
 
 
 class _Null:
-    def write(self, *_):
-        return 0
+    """Null sink that behaves like a strict UTF-8 console: text that cannot be encoded (lone surrogates) raises
+    UnicodeEncodeError exactly as sys.stdout would, so 'printing the input back' is not silently safe."""
+    encoding = "utf-8"
+
+    def write(self, s=""):
+        if not s.isascii():
+            s.encode("utf-8")
+        return len(s)
 
     def flush(self):
         pass
